@@ -9,17 +9,17 @@ import (
 
 // sem is one semantic event of the linearised observed trace (what the client did, in order).
 type sem struct {
-	kind  string // "upd" | "tick"
-	log   Log
-	fin   uint64
+	kind string // "upd" | "tick"
+	log  Log
+	fin  uint64
 	// geth family: the finalised height the L1 node answered (the oracle's truth; fin is what
 	// the geth layer handed to the client)
 	nodeFin    uint64
 	hasNodeFin bool
-	after *HeadJ // stored head observed after the tick completed
-	note  *HeadJ // listener notification caused by this tick (nil: none)
-	notes int    // number of notifications caused by this tick
-	src   string // "catchup" | "live"
+	after      *HeadJ // stored head observed after the tick completed
+	note       *HeadJ // listener notification caused by this tick (nil: none)
+	notes      int    // number of notifications caused by this tick
+	src        string // "catchup" | "live"
 }
 
 type modelStep struct {
@@ -59,6 +59,35 @@ func linearise(c *Case, o *Observed, guard bool) *analysis {
 	}
 	for _, l := range c.Hist {
 		a.steps = append(a.steps, modelStep{line: l.line("hist")})
+	}
+	// the chain-id gate and whether the catch-up scan runs at all
+	{
+		script := strings.Repeat("e", c.ChainIDFails)
+		if c.ChainIDMismatch {
+			script += "m"
+		} else {
+			script += "o"
+		}
+		b := func(x bool) string {
+			if x {
+				return "1"
+			}
+			return "0"
+		}
+		gate, cu := "fatal", "no"
+		for _, m := range o.Marks {
+			switch m.Kind {
+			case "latest", "latestfail", "watch", "watchfail":
+				gate = "proceed"
+			case "filter", "filterfail":
+				cu = "yes"
+			}
+		}
+		if o.Stalled == "" {
+			a.steps = append(a.steps, modelStep{
+				line:   fmt.Sprintf("startup %s %s %s %s", b(c.Mode == "oneshot"), script, b(!c.LatestFail), b(!c.Fin1Fail)),
+				expect: fmt.Sprintf("gate=%s catchup=%s", gate, cu), what: "start-up gate"})
+		}
 	}
 	afterHead := func(i int) *HeadJ {
 		if i+1 < len(o.Marks) {
